@@ -444,6 +444,29 @@ class Body:
             return whole[0]
         return None
 
+    def stable(self, l):
+        """user local with exactly one whole definition, never partially assigned, never `&mut`-borrowed
+        directly (so its value at every use is the value of that definition)"""
+        self._ensure()
+        if not hasattr(self, '_stable'):
+            self._stable = {}
+            mutb = set()
+            for i, s in self.assigns():
+                rv = s['rv']
+                if rv['r'] in ('ref', 'rawptr') and rv.get('mut', True):
+                    pl = rv['pl']
+                    if 'deref' not in pl['p']:
+                        mutb.add(pl['l'])
+            self._mutb = mutb
+        if l in self._stable:
+            return self._stable[l]
+        ds = self.defs().get(l, [])
+        ok = len(ds) == 1 and not (ds[0][0] == 'assign' and ds[0][2]['pl']['p']) and \
+            not (ds[0][0] == 'call' and ds[0][2].dest['p']) and \
+            (l not in self._mutb or any(n.startswith('__awaitee') for n in [self.name_of(l) or '']))
+        self._stable[l] = ok
+        return ok
+
     def name_of(self, local):
         for n, pl in self.names.items():
             if pl['l'] == local and not pl['p']:
@@ -503,7 +526,9 @@ class Body:
         proj = tuple(pl['p'])
         if depth > 40:
             return ('unknown',)
-        if l in self.user_locals or l <= self.argc and l != 0:
+        if l <= self.argc and l != 0:
+            return ('place', l, proj)
+        if l in self.user_locals and not self.stable(l):
             return ('place', l, proj)
         ds = self.defs().get(l, [])
         whole = [x for x in ds if x[0] == 'call' or not x[2]['pl']['p']]
@@ -532,7 +557,7 @@ class Body:
                 return ('ref', self.origin_place(ipl, depth + 1), proj)
             return self.origin_place({'l': ipl['l'], 'p': list(ipl['p']) + p2}, depth + 1)
         if r == 'cast':
-            return ('cast', self.origin(rv['a'][0], depth + 1), rv['ty'], proj)
+            return ('cast', self.origin(rv['a'][0], depth + 1), rv['ty'], proj, rv.get('kind', ''))
         if r == 'bin':
             return ('bin', rv['op'], rv['a'][0], rv['a'][1], proj, blk)
         if r == 'un':
@@ -795,6 +820,7 @@ class Program:
                     self.crates.append(crate)
                 elif 'path' in d:
                     b = Body(d, crate)
+                    b.prog = self
                     self.bodies.setdefault(b.path, []).append(b)
                 elif 'const' in d:
                     self.consts[norm(d['const'])] = int(d['val'])
@@ -898,6 +924,23 @@ class Program:
 
     def impls_of(self, trait):
         return [i for i in self.impls if norm(i['impl']) == trait]
+
+    def find_impl(self, trait, self_ty, method, arg0=None):
+        """method body of `impl trait for self_ty` wherever the impl block lives (module-independent)"""
+        hits = []
+        for b in self.all_bodies():
+            if b.kind != 'AssocFn' or norm(b.trait) != trait:
+                continue
+            if norm(b.self_ty) != self_ty:
+                continue
+            if b.path.rsplit('::', 1)[-1] != method:
+                continue
+            if arg0 is not None and (not b.sig_in or norm(b.sig_in[0]) != arg0):
+                continue
+            hits.append(b)
+        if len(hits) != 1:
+            raise AnchorLost("impl %s for %s :: %s (arg %s): %d candidates" % (trait, self_ty, method, arg0, len(hits)))
+        return hits[0]
 
     def promoted(self, body, idx):
         bs = [b for b in self.bodies.get(body.path + '::{promoted#%d}' % idx, []) if b.is_promoted]
